@@ -711,3 +711,72 @@ func isBuiltinCall(cc *ssa.CallCommon, name string) bool {
 	b, ok := cc.Value.(*ssa.Builtin)
 	return ok && b.Name() == name
 }
+
+// dependsOnCallUp is dependsOnCall that, when the value depends on a parameter of an unexported module function,
+// continues into the corresponding argument of every static caller (all callers must satisfy it; depth-bounded). It is
+// what keeps a value-provenance rule true after the code that consumes the value was moved into a helper.
+func dependsOnCallUp(p *Prog, v ssa.Value, pred func(*ssa.CallCommon) bool, depth int) bool {
+	if dependsOnCall(v, pred) {
+		return true
+	}
+	if depth == 0 {
+		return false
+	}
+	var params []*ssa.Parameter
+	sliceBack(v, func(x ssa.Value) bool {
+		if prm, ok := x.(*ssa.Parameter); ok {
+			params = append(params, prm)
+		}
+		return true
+	})
+	for _, prm := range params {
+		fn := prm.Parent()
+		if fn == nil || fn.Object() == nil || fn.Object().Exported() {
+			continue
+		}
+		idx := -1
+		for i, q := range fn.Params {
+			if q == prm {
+				idx = i
+			}
+		}
+		callers := p.callersIndex()[fn]
+		if idx < 0 || len(callers) == 0 {
+			continue
+		}
+		all := true
+		for _, cs := range callers {
+			if idx >= len(cs.Call.Args) || !dependsOnCallUp(p, cs.Call.Args[idx], pred, depth-1) {
+				all = false
+			}
+		}
+		if all {
+			return true
+		}
+	}
+	return false
+}
+
+// dominatedByCallUp: instr is dominated by a call satisfying pred in its own function, or its function is an
+// unexported module helper all of whose call sites are (depth-bounded).
+func dominatedByCallUp(p *Prog, instr ssa.Instruction, pred func(*ssa.CallCommon) bool, depth int) bool {
+	f := instr.Parent()
+	for _, call := range callsIn(f) {
+		if pred(call.Call) && instrDominates(call.Instr, instr) {
+			return true
+		}
+	}
+	if depth == 0 || f.Object() == nil || f.Object().Exported() {
+		return false
+	}
+	callers := p.callersIndex()[f]
+	if len(callers) == 0 {
+		return false
+	}
+	for _, cs := range callers {
+		if !dominatedByCallUp(p, cs.Instr, pred, depth-1) {
+			return false
+		}
+	}
+	return true
+}
